@@ -767,6 +767,10 @@ func (y yearSerializer) serialize(ctx context.Context, typ sql.Type, value inter
 		return nil, fmt.Errorf("expected int16, but got %T", convertedValue)
 	}
 
+	if intValue == 0 {
+		// YEAR 0000 is encoded as 0, not as an offset from 1900
+		return []byte{0}, nil
+	}
 	return []byte{byte(intValue - 1900)}, nil
 }
 
